@@ -146,6 +146,67 @@ def _exclusion_guards(v: FuncView, a: str, b: str):
     return cands
 
 
+def _raise_conditions(v: FuncView, a: str, b: str):
+    """[(Raise node, set of (a is None, b is None) under which it is reached)] for the raises whose enclosing tests are
+    all None-tests of `a` / `b` (if / elif / else nesting); a raise under any other test is skipped"""
+    out = []
+    for r in walk_no_nested(v.fi.node):
+        if not isinstance(r, ast.Raise):
+            continue
+        conds = []
+        ok = True
+        child = r
+        par = v.parent.get(id(child))
+        while par is not None and par is not v.fi.node:
+            if isinstance(par, ast.If):
+                if any(child is x for x in par.body):
+                    conds.append((par.test, True))
+                elif any(child is x for x in par.orelse):
+                    conds.append((par.test, False))
+            elif isinstance(par, (ast.For, ast.While, ast.Try, ast.With)):
+                ok = False
+            child = par
+            par = v.parent.get(id(par))
+        if not ok or not conds:
+            continue
+        combos = set()
+        tabular = True
+        for an in (True, False):
+            for bn in (True, False):
+                holds = True
+                for t, pol in conds:
+                    val = _eval_none_test(t, {a: an, b: bn})
+                    if val is None:
+                        tabular = False
+                        break
+                    if val != pol:
+                        holds = False
+                if not tabular:
+                    break
+                if holds:
+                    combos.add((an, bn))
+            if not tabular:
+                break
+        if tabular:
+            out.append((r, combos))
+    return out
+
+
+def _eval_none_test(t, env):
+    """truth of a test made of `x is None` / `x is not None` atoms (x in env: name -> is None?), else None"""
+    if isinstance(t, ast.UnaryOp) and isinstance(t.op, ast.Not):
+        x = _eval_none_test(t.operand, env)
+        return None if x is None else (not x)
+    if isinstance(t, ast.BoolOp):
+        vals = [_eval_none_test(x, env) for x in t.values]
+        if any(x is None for x in vals):
+            return None
+        return all(vals) if isinstance(t.op, ast.And) else any(vals)
+    if isinstance(t, ast.Compare) and len(t.ops) == 1 and isinstance(t.left, ast.Name) and t.left.id in env and isinstance(t.comparators[0], ast.Constant) and t.comparators[0].value is None and isinstance(t.ops[0], (ast.Is, ast.IsNot)):
+        return env[t.left.id] if isinstance(t.ops[0], ast.Is) else (not env[t.left.id])
+    return None
+
+
 def _both_forwarded(ctx, v: FuncView, a: str, b: str):
     """[(call node, callee FunctionInfo, callee's name for a, callee's name for b)] for the calls of repo functions
     that receive the caller's `a` and `b` unchanged (plain names) - candidates for a delegated exclusion guard."""
@@ -178,8 +239,16 @@ def _exclusion_status(ctx, v: FuncView, a: str, b: str, depth: int = 0):
     for n, nf in cands:
         if nf == want:
             return ("ok", n, norm(n.test))
+    # general form: a raise whose path condition (if / elif / else nesting of None tests) is "both given"
+    rc = _raise_conditions(v, a, b)
+    for r, combos in rc:
+        if combos == {(False, False)}:
+            return ("ok", r, "raise under " + " / ".join(sorted({norm(t) for t in [v.parent.get(id(r)).test] if hasattr(v.parent.get(id(r)), "test")})))
     if cands:
         return ("wrong", cands[0][0], norm(cands[0][0].test))
+    for r, combos in rc:
+        if combos and combos != {(True, True)} and (False, False) not in combos:
+            return ("wrong", r, norm(r))
     fw = _both_forwarded(ctx, v, a, b) if depth < 3 else []
     worst = None
     for n, callee, ca, cb in fw:
